@@ -4,6 +4,7 @@ package c08
 // branch (CacheContext) of it so that cases are independent of each other.
 
 import (
+	"bytes"
 	"crypto/sha256"
 	"encoding/hex"
 	"fmt"
@@ -205,6 +206,33 @@ func newWorld(t *testing.T) *world {
 	if err := sdb.Commit(); err != nil {
 		t.Fatal(err)
 	}
+	// the three precompile accounts exist in the committed state, as on a chain where each has been called
+	// before (a call to an address without account starts with a journaled account creation)
+	{
+		sdb := deps.EvmKeeper.NewStateDB(deps.Ctx, statedb.NewEmptyTxConfig(gethcommon.Hash{}))
+		evmObj := deps.EvmKeeper.NewEVM(deps.Ctx, evmtest.MOCK_GETH_MESSAGE, deps.EvmKeeper.GetEVMConfig(deps.Ctx), evm.NewNoOpTracer(), sdb)
+		for _, q := range []struct {
+			to gethcommon.Address
+			in []byte
+		}{
+			{precompileAddrs[0], mustPack(embeds.SmartContract_FunToken.ABI, "whoAmI", w.other.Hex())},
+			{precompileAddrs[1], mustPack(embeds.SmartContract_Wasm.ABI, "query", w.wasmAddr.String(), []byte(`{"count":{}}`))},
+			{precompileAddrs[2], mustPack(embeds.SmartContract_Oracle.ABI, "queryExchangeRate", "unibi:uusd")},
+		} {
+			if _, _, err := evmObj.Call(vm.AccountRef(deps.Sender.EthAddr), q.to, q.in, 5_000_000, big.NewInt(0)); err != nil {
+				t.Fatalf("precompile warm-up query: %v", err)
+			}
+		}
+		if err := sdb.Commit(); err != nil {
+			t.Fatal(err)
+		}
+		chk := deps.EvmKeeper.NewStateDB(deps.Ctx, statedb.NewEmptyTxConfig(gethcommon.Hash{}))
+		for _, a := range precompileAddrs {
+			if !chk.Exist(a) {
+				t.Fatalf("precompile account %s does not exist after a committed call", a.Hex())
+			}
+		}
+	}
 	for _, n := range []string{"bank", "evm", "wasm", "oracle"} {
 		var k storetypes.StoreKey
 		if kk := app.GetKey(n); kk != nil {
@@ -233,6 +261,9 @@ func (w *world) digest(ctx sdk.Context, skip func(store string, key []byte) bool
 			if skip != nil && skip(k.Name(), it.Key()) {
 				continue
 			}
+			if k.Name() == "evm" && zeroSlot(it.Key(), it.Value()) {
+				continue
+			}
 			fmt.Fprintf(h, "%x=%x\n", it.Key(), it.Value())
 			n++
 		}
@@ -240,6 +271,25 @@ func (w *world) digest(ctx sdk.Context, skip func(store string, key []byte) bool
 		fmt.Fprintf(h, "#%s:%d\n", k.Name(), n)
 	}
 	return hex.EncodeToString(h.Sum(nil))[:16]
+}
+
+// zeroSlot: a contract storage entry (prefix byte, 20-byte address, 32-byte slot) holding the zero word.  The
+// keeper never deletes storage entries (StateDB.Commit hands SetState the 32 bytes of the value, also when
+// they are zero), so a slot holding zero and an absent slot are two encodings of one EVM state: a slot
+// written and then reverted inside a transaction that also calls a precompile (no skipUnchanged at commit)
+// is stored as a zero entry where it was absent.  The digest counts them as absent — this, and nothing wider:
+// only keys of the keeper's AccState map (evm.KeyPrefixBzAccState | address | slot) whose value is the 32-byte zero word.
+func zeroSlot(key, value []byte) bool {
+	pfx := evm.KeyPrefixBzAccState
+	if !bytes.HasPrefix(key, pfx) || len(key) != len(pfx)+20+32 || len(value) != 32 {
+		return false
+	}
+	for _, b := range value {
+		if b != 0 {
+			return false
+		}
+	}
+	return true
 }
 
 func mustPack(a *gethabi.ABI, name string, args ...interface{}) []byte {
